@@ -431,6 +431,20 @@ fn get_array_hip_accum(mode: &Mode) -> f64 {
     }
 }
 
+/// Extract the out-of-order flag from an array mode
+fn get_array_out_of_order(mode: &Mode) -> bool {
+    match mode {
+        Mode::Array8(src) => src.is_out_of_order(),
+        Mode::Array6(src) => src.is_out_of_order(),
+        Mode::Array4(src) => src.is_out_of_order(),
+        Mode::List { .. } | Mode::Set { .. } => {
+            unreachable!(
+                "get_array_out_of_order called with non-array mode; List/Set not supported"
+            );
+        }
+    }
+}
+
 /// Merge Array4/Array6 into Array8 by iterating registers
 fn merge_array46_same_lgk(dst: &mut Array8, num_registers: usize, get_value: impl Fn(u32) -> u8) {
     for slot in 0..num_registers {
@@ -597,6 +611,12 @@ fn copy_or_downsample(src_mode: &Mode, src_lg_k: u8, tgt_lg_k: u8) -> Array8 {
         }
 
         result.set_hip_accum(src_hip);
+        if get_array_out_of_order(src_mode) {
+            // An out-of-order source has no valid HIP accumulator (it is zeroed when the
+            // sketch goes out of order). The copy must be out of order as well, otherwise
+            // the stale accumulator would be reported as the estimate.
+            result.rebuild_estimator_from_registers();
+        }
         result
     } else {
         // Downsample from src to tgt
